@@ -310,6 +310,11 @@ pub const ATTR_SNIPPETS: &[&str] = &[
     " xmlns:xsi",
     " xmlns:xsi=",
     " xmlns:",
+    // declarations the namespace rules forbid (the reserved prefixes / names)
+    " xmlns:xml=\"urn:other\"",
+    " xmlns:xmlns=\"u\"",
+    " xmlns:p=\"http://www.w3.org/XML/1998/namespace\"",
+    " xmlns:p=\"http://www.w3.org/2000/xmlns/\"",
     " xmlns",
     " a=\"1\" xsi:nil",
     " a=\"\r\"",
@@ -719,7 +724,7 @@ pub const VOCAB: &[&str] = &[
     "<a xsi:nil=\"true\">", "<opt xsi:nil=\"true\" xmlns:xsi=\"http://www.w3.org/2001/XMLSchema-instance\">", "<a xsi:nil=\"false\"/>", "<a nil=\"true\">", "<inner xsi:nil=\"1\" a=\"\">", "<item xsi:nil='true'/>", "<root xsi:nil=\"true\">",
     "<a k=\"1\" k=\"2\">", "<a k=1>", "<a k>", "<a k=\"1>", "<a =1>", "<a a=\"1\" a=\"2\"/>", "<a k=\"&unknown;\">", "<a k=\"&lt;\" j='&#65;'>", "<inner a=\"1\" a=\"2\">", "<a xmlns=\"u\">", "<p:a xmlns:p=\"u\">", "</p:a>",
     "</>", "<>", "</zzz>", "<", ">", "/>", "<a", "</a", "<!", "<!-", "<![", "<![CDATA[", "]]>", "-->", "?>", "\u{feff}",
-    "\u{ff21}", "\u{fec1}", "<x:nil>", "</x:nil>", "<xsi:nil/>", "<a xsi:nil>", "<item p:nil/>", "<a xsi:nil=>", "<nil>", "\r", "x\r", "<a k=\"\r\">", "<a k='v\r'>", "<inner a=\"x\r\n\">",
+    "\u{ff21}", "\u{fec1}", "<x xmlns:xml='u'/>", "<b xmlns:xmlns='u'>", "<a xmlns:q='http://www.w3.org/XML/1998/namespace'/>", "<x:nil>", "</x:nil>", "<xsi:nil/>", "<a xsi:nil>", "<item p:nil/>", "<a xsi:nil=>", "<nil>", "\r", "x\r", "<a k=\"\r\">", "<a k='v\r'>", "<inner a=\"x\r\n\">",
 ];
 
 pub fn tokens_of(doc: &str) -> Vec<String> {
